@@ -41,7 +41,7 @@ ASSUMPTIONS = [
     "bounds-only invalidity of the converted plan and ttsem's don't-care classes are excluded",
 ]
 SHARD_TIMEOUT = {"quick": 600, "thorough": 5400}
-BOUNDS = {"quick": dict(n=320, K=3, plans=8, nodes=150, max_inst=12), "thorough": dict(n=4000, K=4, plans=20, nodes=600, max_inst=16)}
+BOUNDS = {"quick": dict(n=600, K=3, plans=8, nodes=150, max_inst=12), "thorough": dict(n=10000, K=4, plans=20, nodes=600, max_inst=16)}
 PROFILE = dict(
     t2s=True,
     cond_effects=False,
@@ -112,17 +112,31 @@ def interval_class(act):
     return form + (":constant" if const else ":state-dependent")
 
 
-def _ground_key(pb, fexp, params):
-    """(fluent name, ground args) of a lifted fluent expression under a parameter binding, or None."""
-    from vk.ref.evalx import Interp, ev, UNDEF
+_ANY = object()
 
-    try:
-        args = tuple(ev(a, Interp(pb, {}, params), "strict") for a in fexp.args)
-    except Unsupported:
-        return None
-    if any(a is UNDEF for a in args):
-        return None
-    return (fexp.fluent().name, args)
+
+def _ground_key(pb, fexp, params):
+    """(fluent name, ground args) of a lifted fluent expression under a parameter binding; an argument that mentions a
+    quantified / forall variable is the wildcard _ANY; None if an argument cannot be evaluated without a state."""
+    from vk.ref.evalx import Interp, ev, UNDEF, free_vars
+
+    args = []
+    for a in fexp.args:
+        if free_vars(a):
+            args.append(_ANY)
+            continue
+        try:
+            x = ev(a, Interp(pb, {}, params), "strict")
+        except Unsupported:
+            return None
+        if x is UNDEF:
+            return None
+        args.append(x)
+    return (fexp.fluent().name, tuple(args))
+
+
+def _same_ground(k1, k2):
+    return k1 is not None and k2 is not None and k1[0] == k2[0] and all(a is _ANY or b is _ANY or a == b for a, b in zip(k1[1], k2[1]))
 
 
 def _fluent_exps(e, out):
@@ -145,50 +159,86 @@ def _several_effects(act, pred):
     return False
 
 
-def classify(pb, cpb, path, steps, f, v):
-    """Witness-derived signature of one failure of a converted plan (one string per root cause, as far as the witness tells):
-    duration:left-open-interval-gets-the-time-step   the time step itself is the duration of a left-open interval (F22)
-    duration:empty-interval                          the (state-dependent) interval is empty in the start state
-    condition:start-effect-aliasing                  a start effect writes the ground fluent a later condition reads, through a
-                                                     syntactically different lifted expression (parameter vs constant / other parameter)
-    */several-start-assignments-to-one-fluent        one action assigns a fluent twice at start (substitution keeps the last)
-    */accumulated-incdec                             one action increases/decreases a fluent twice at one timing (compiled to assignments)
-    otherwise the bare class (condition / duration:<interval form>:<constant|state-dependent> / goal / ...)."""
+def _aliasing(pb, step):
+    """A start effect of this durative step writes a ground fluent that the same action later reads or writes (condition,
+    end-effect target / value / condition) through a syntactically different lifted expression."""
+    _, a, args, _ = step
+    params = {p.name: x for p, x in zip(a.parameters, args)}
+    later = []
+    for cl in a.conditions.values():
+        for c in cl:
+            _fluent_exps(c, later)
+    starts = []
+    for timing, el in a.effects.items():
+        if timing.is_from_start() and timing.delay == 0:
+            starts += [e.fluent for e in el]
+        else:
+            for e in el:
+                later.append(e.fluent)
+                _fluent_exps(e.value, later)
+                _fluent_exps(e.condition, later)
+    for sfl in starts:
+        k = _ground_key(pb, sfl, params)
+        if k is None:
+            continue
+        for g in later:
+            if g is not sfl and _same_ground(_ground_key(pb, g, params), k):
+                return True
+    return False
+
+
+CAUSES = ("start-effect-aliasing", "several-assignments-to-one-fluent", "accumulated-incdec")
+
+
+def structural_causes(pb, steps, upto):
     from unified_planning.model import DurativeAction
 
+    out = set()
+    for k in range(min(upto, len(steps) - 1) + 1):
+        a = steps[k][1]
+        if not isinstance(a, DurativeAction):
+            continue
+        if _aliasing(pb, steps[k]):
+            out.add(CAUSES[0])
+        if _several_effects(a, lambda e: e.is_assignment()):
+            out.add(CAUSES[1])
+        if _several_effects(a, lambda e: e.is_increase() or e.is_decrease()):
+            out.add(CAUSES[2])
+    return out
+
+
+def classify(pb, cpb, path, steps, f, v):
+    """Witness-derived signature of one failure of a converted plan - one string per root cause as far as the witness tells:
+    left-open-interval-gets-the-time-step     the time step itself is the duration chosen for a left-open interval (F22)
+    zero-duration-chosen                      a step up to the failing one got duration 0 (lower bound 0): its start and end collapse into one instant
+    empty-duration-interval                   the (state-dependent) interval is empty in the start state; the compiled action has no duration
+    start-effect-aliasing                     a step up to the failing one writes, at start, a ground fluent that the same action later reads /
+                                              writes through a syntactically different lifted expression (parameter vs constant / other parameter):
+                                              the compiler's lifted substitution misses it
+    several-assignments-to-one-fluent         a step up to the failing one assigns one lifted fluent twice at one timing (substitution keeps the last)
+    accumulated-incdec                        a step up to the failing one increases/decreases one fluent twice at one timing (compiled into equal assignments)
+    otherwise the bare failure class (condition / precondition / duration:<interval form>:<constant|state-dependent> / goal / ...)."""
     code = f["code"]
     step_eps = pb.epsilon if pb.epsilon is not None else Fraction(1, 100)
-    acts = [a for _, a, _, _ in steps if isinstance(a, DurativeAction)]
-    generic = ""
-    if any(_several_effects(a, lambda e: e.is_increase() or e.is_decrease()) for a in acts):
-        generic = "/accumulated-incdec"
-    elif any(_several_effects(a, lambda e: e.is_assignment()) for a in acts):
-        generic = "/several-assignments-to-one-fluent"
+    upto = len(steps) - 1
     if code == "duration":
         a, d = steps[f["step"]][1], steps[f["step"]][3]
         if a.duration.is_left_open() and d == step_eps:
-            return "duration:left-open-interval-gets-the-time-step"
+            return "left-open-interval-gets-the-time-step"
         if f.get("empty"):
-            return "duration:empty-interval"
-        return "duration:" + interval_class(a) + generic
-    if code.startswith("condition"):
-        i = int(f["src"])
-        _, a, args, _ = steps[i]
-        params = {p.name: x for p, x in zip(a.parameters, args)}
-        cond_fexps = []
-        for cl in a.conditions.values():
-            for c in cl:
-                if str(c) == f["expr"]:
-                    _fluent_exps(c, cond_fexps)
-        for timing, el in a.effects.items():
-            if timing.is_from_start() and timing.delay == 0:
-                for e in el:
-                    k = _ground_key(pb, e.fluent, params)
-                    for g in cond_fexps:
-                        if g is not e.fluent and k is not None and _ground_key(pb, g, params) == k:
-                            return "condition:start-effect-aliasing"
-        return "condition" + generic
-    return code.split(":")[0] + generic
+            return "empty-duration-interval"
+        upto = f["step"]
+    elif "src" in f and str(f["src"]).isdigit():
+        upto = int(f["src"])
+    if any(d is not None and d == 0 for _, _, _, d in steps[: upto + 1]):
+        return "zero-duration-chosen"
+    cs = structural_causes(pb, steps, upto)
+    for c in CAUSES:
+        if c in cs:
+            return c
+    if code == "duration":
+        return "duration:" + interval_class(steps[f["step"]][1])
+    return code.split(":")[0]
 
 
 def run_case(key, tier, b, res):
@@ -327,15 +377,16 @@ def _run_case(key, tier, b, res, rng, rec, e):
             res.sample({"problem": rec, "compiled_plan": plan_json, "converted": back_json, "interval_classes": kl, "reference": v.status, "library_validator": lib})
 
 
-REQUIRED = ["interval:left-open:constant", "interval:open:constant", "interval:right-open:constant", "interval:closed:constant", "interval:fixed:constant"]
+FORMS = ["left-open", "open", "right-open", "closed", "fixed"]
 
 
 def thresholds(m):
     c = m["counters"]
     out = []
-    for k in REQUIRED:
-        if c.get(k, 0) < 3:
-            out.append(f"fewer than 3 converted plans with a step of class {k} ({c.get(k, 0)})")
+    for form in FORMS:
+        n = c.get(f"interval:{form}:constant", 0) + c.get(f"interval:{form}:state-dependent", 0)
+        if n < 3:
+            out.append(f"fewer than 3 converted plans with a step whose duration interval is {form} ({n})")
     sd = sum(v for k, v in c.items() if k.startswith("interval:") and k.endswith(":state-dependent"))
     if sd < 5:
         out.append(f"fewer than 5 converted plans with a state-/parameter-dependent duration bound ({sd})")
